@@ -214,7 +214,11 @@ def run_case(lib, case):
     A = c12docs.atoms(lib)
     fails = []
     data = c12docs.render_document(lib, case)
-    doc = collada.Collada(io.BytesIO(data))
+    if case.get('ignore'):
+        # some instances refer to nothing: loaded with errors ignored they are dropped, the rest is unaffected
+        doc = collada.Collada(io.BytesIO(data), ignore=[collada.common.DaeError])
+    else:
+        doc = collada.Collada(io.BytesIO(data))
     obs = observe(doc, A, fails)
     want = c12docs.expected(lib, case)
     for kind in c12docs.KINDS:
